@@ -27,7 +27,7 @@ REPS = [
     {"mode": "shard", "shapes": [[6, 5]], "rank": 1},
 ]
 TOL = {"norm": 1e-5, "cosine": 1e-5, "graft_step": 1e-6, "graft_closed_form": 1e-5,
-       "tf_norm": 1e-5, "tf_cosine": 1e-5, "tf_graft_step": 1e-6}
+       "tf_norm": 1e-5, "tf_cosine": 1e-5, "tf_graft_step": 1e-6, "zero_direction_steps": None}
 
 
 def judge(ck, jobs, res, prefix, label):
@@ -39,7 +39,8 @@ def judge(ck, jobs, res, prefix, label):
                    f"{label}: raised {r['error']}", {"job": j, "tb": r["tb"]})
       continue
     for k, v in r["worst"].items():
-      ck.calib(k, v, TOL[k])
+      if TOL.get(k) is not None:
+        ck.calib(k, v, TOL[k])
     if r["mismatches"]:
       m = r["mismatches"][0]
       ck.violation(f"{prefix}|{sig}|{m['clause']}",
@@ -55,7 +56,7 @@ def ds_jobs(ck, beh):
     rep = REPS[i % len(REPS)]
     c = dict(b["cfg"])
     jobs.append({"cfg": c, "rep": rep, "steps": b["steps"], "seed": ck.seed * 10000 + i,
-                 "sparse": i % 3 == 0,
+                 "sparse": i % 3 == 0, "diag_eps": [1e-10, 2.0 ** -6][(i // 2) % 2],
                  "sig": f"{c['graft']}|{rep['mode']}|rank{rep.get('rank', 0)}{'|fd' if rep.get('fd') else ''}"})
   return jobs
 
@@ -77,7 +78,8 @@ def tf_jobs(ck, beh):
     else:
       shapes, target = [[(4, 4)], [(3, 3), (5,)], [(4, 6)]][i % 3], 0
     jobs.append({"o": o, "shapes": shapes, "steps": b["steps"], "target": target, "seed": ck.seed * 10000 + i,
-                 "sparse": i % 4 == 0, "sig": f"{c['so']}|{g}|{'skipped' if c['skipped'] else 'preconditioned'}"})
+                 "sparse": i % 4 == 0, "late": (c["so"] == "shampoo" and c["PF"] >= 2 and not c["skipped"]),
+                 "sig": f"{c['so']}|{g}|{'skipped' if c['skipped'] else 'preconditioned'}"})
   return jobs
 
 
@@ -102,6 +104,10 @@ def run(ck):
   tres = core.run_workers("harness.workers.tf_graft", tjobs, work=ck.work)
   judge(ck, tjobs, tres, "tf", "TFControl_Gen graft replay")
   ck.sample({"tf_job": {"o": tjobs[0]["o"], "kinds": [s["kind"] for s in tjobs[0]["steps"]]}})
+  nz = sum(r["worst"].get("zero_direction_steps", 0) for r in tres if not r["error"])
+  ck.cov["tf_zero_direction_steps_checked"] = int(nz)
+  if nz == 0:
+    raise core.MachineryError("vacuous: no step with a zero preconditioned direction and a non-zero graft step")
   # ---- binding self-tests ----------------------------------------------------------------------------
   bad = copy.deepcopy(next(j for j in jobs if not j["cfg"]["skip"] and j["cfg"]["start"] == 0))
   for t, st in enumerate(bad["steps"]):      # claim "graft step" where the spec says "Shampoo step"
